@@ -249,6 +249,11 @@ def check(ctx):
             bs = origins(prog, fn, lf[0][1]["args"][1], at=lf[0][0])
             ctx.check(bool(bs) and all(x.proj and x.proj[-1].endswith("VarFileHtxCache.buckets_size") for x in bs), "bucket-index", "HEAD_WRITE:table-size",
                       "the head writer passes something other than the cached bucket count as table size", where=where(fn))
+    # ---- (4b) every record field is accessed at its layout position (cursor typestate) ----------
+    from . import cursor
+    from .roles import M_KEY, M_VAL
+    n_ops = cursor.check_cursor(ctx, prog, R, {M_KEY, M_VAL})
+    ctx.floor("field-position", "record field accesses checked", n_ops, 30)
     # ---- (5) bitmap --------------------------------------------------------------------------
     c04bitmap.check_bitmap(ctx, prog, R)
     # ---- (6) phantom types -------------------------------------------------------------------
